@@ -102,6 +102,11 @@ func checkC01(c *Ctx) {
 	c1NilGuards(c, "R1.6", true)
 	c1Fallback(c, "R1.7")
 	c1Errors(c, "R1.8")
+	c.Rule("R1.9", "each JSON encoder exclusively owns its pooled buffers (a shared scratch buffer lets one entry's bytes appear inside another's line)", 3)
+	c8Ownership4(c, "R1.9")
+	c.Rule("R1.10", "nothing can unwind or bail out between an opener and its closer: user String()/Error()/Errors() calls run under recover; a reflected value is encoded before anything is written", 5)
+	c10Recover(c, "R1.10")
+	c10Reflected(c, "R1.10")
 }
 
 func coreFuncs(c *Ctx) []*ssa.Function {
